@@ -104,3 +104,12 @@ Definition law_filter (l : list dcmd) (obs : list (nat * bool)) (jobreqs queuere
           (combine l obs) &&
   bool_decide (jobreqs = map (dreq 1) (filter (accepts 1) l)) &&
   bool_decide (queuereqs = map (dreq 2) (filter (accepts 2) l)).
+
+(* ---------- the request and the incarnation of the target (TargetObject.UID) ----------
+   observed: number of requests, how many carry the UID the Command's TargetObject has, how
+   many carry a different non-empty UID *)
+(* unsigned: no request names ANOTHER incarnation *)
+Definition law_uid_X (nreq carried wrong : nat) : bool := bool_decide (wrong = 0%nat).
+(* signed (finding C20-target-uid-not-checked): every request identifies the incarnation the
+   Command was issued for *)
+Definition law_uid_Y (nreq carried wrong : nat) : bool := bool_decide (carried + wrong = nreq)%nat.
